@@ -19,6 +19,33 @@ struct Server {
     out: ws::Sender,
     dbs: Arc<Databases>,
     client: Client,
+    // the session's clean up (subscriptions, connection counter) has run
+    session_ended: bool,
+}
+
+impl Server {
+    /// What the end of a session owes the database, exactly once: the library calls on_close twice
+    /// for some closing handshakes and not at all for a close frame it rejects (codes it does not
+    /// know), so the clean up also runs when the connection's handler is dropped
+    fn end_session(&mut self) {
+        if self.session_ended {
+            return;
+        }
+        self.session_ended = true;
+        match self.client.sender.try_send(TO_CLOSE.to_string()) {
+            //To close the read thread
+            Ok(_) => {}
+            Err(e) => log::warn!("on_close::Error {}", e),
+        }
+        process_request("unwatch-all", &self.dbs, &mut self.client);
+        self.client.left(&self.dbs);
+    }
+}
+
+impl Drop for Server {
+    fn drop(&mut self) {
+        self.end_session();
+    }
 }
 
 impl Handler for Server {
@@ -128,13 +155,7 @@ impl Handler for Server {
 
     fn on_close(&mut self, code: CloseCode, reason: &str) {
         log::debug!("WebSocket closing for ({:?}) {}", code, reason);
-        match self.client.sender.try_send(TO_CLOSE.to_string()) {
-            //To close the read thread
-            Ok(_) => {}
-            Err(e) => log::warn!("on_close::Error {}", e),
-        }
-        process_request("unwatch-all", &self.dbs, &mut self.client);
-        self.client.left(&self.dbs);
+        self.end_session();
     }
 }
 
@@ -152,6 +173,7 @@ pub fn start_web_socket_client(dbs: Arc<Databases>, ws_address: Arc<String>) {
                 out,
                 dbs: dbs.clone(),
                 client: Client::new_empty(sender.clone()),
+                session_ended: false,
             })
             .unwrap()
             .listen(ws_address)
